@@ -75,7 +75,7 @@ fn gen_paged_x(rng: &mut Rng, n: usize, out: &mut Vec<String>, early: bool) {
             // the cookie is opaque: a server may hand out the same one on consecutive pages (a session handle)
             let cookie = if last { if rng.chance(1, 3) { "none".to_string() } else { "-".to_string() } } else if pg > 0 && rng.chance(1, 4) { prev_cookie.clone() } else { hex(&rng.bytes(*rng.clone().pick(&[1usize, 2, 8, 300]))) };
             prev_cookie = cookie.clone();
-            its.push(format!("d{}.{}.{}", if last { *rng.pick(&[0u32, 0, 4]) } else { 0 }, cookie, rng.below(3)));
+            let no = rng.below(4); its.push(format!("d{}.{}.{}.{}", if last { *rng.pick(&[0u32, 0, 4]) } else { 0 }, cookie, no, rng.below(no + 1)));
             pages.push(its.join(","));
         }
         let uc = format!("u{}{}{}", if i % 17 == 16 { "P" } else { "" }, if !early && i % 3 == 1 { "E" } else { "" }, rng.below(3));
@@ -222,8 +222,11 @@ async fn run_paged(args: &[String]) -> (String, Option<String>) {
                         let rest = &it[1..];
                         match it.as_bytes()[0] { b'e' => outb.extend(item_msg(id, 'e', rest.parse().unwrap(), &[])), b'r' => outb.extend(item_msg(id, 'r', rest.parse().unwrap(), &[])), b'i' => outb.extend(item_msg(id, 'i', rest.parse().unwrap(), &[])),
                             _ => { let f: Vec<&str> = rest.split('.').collect(); let mut cs = vec![];
-                                if f[1] != "none" { cs.push(control(b"1.2.840.113556.1.4.319", None, Some(&enc(&crate::lanes::frame::seq(vec![crate::lanes::frame::int_tag(0), octets(&unhex(f[1]))]))))); }
-                                for j in 0..f[2].parse::<usize>().unwrap() { cs.push(control(format!("1.3.{}", j).as_bytes(), None, None)); }
+                                let nother = f[2].parse::<usize>().unwrap(); let pos = f.get(3).and_then(|x| x.parse::<usize>().ok()).unwrap_or(0).min(nother);
+                                for j in 0..nother { cs.push(control(format!("1.3.{}", j).as_bytes(), None, None)); }
+                                // the paging control sits at position pos among the others; its size field is the server's ESTIMATE (RFC 2696): any value
+                                if f[1] != "none" { let estimate = ((pos * 3 + f[1].len()) % 11) as i64;
+                                    cs.insert(pos, control(b"1.2.840.113556.1.4.319", None, Some(&enc(&crate::lanes::frame::seq(vec![crate::lanes::frame::int_tag(estimate), octets(&unhex(f[1]))]))))); }
                                 outb.extend(done_msg(id, f[0].parse().unwrap(), &[], cs)); } }
                     }
                     pi += 1;
@@ -246,7 +249,7 @@ async fn run_paged(args: &[String]) -> (String, Option<String>) {
     let res = st.finish().await;
     settle().await;
     let paged_in_final = res.ctrls.iter().any(|c| c.1.ctype == "1.2.840.113556.1.4.319");
-    let others = res.ctrls.iter().filter(|c| c.1.ctype != "1.2.840.113556.1.4.319").count();
+    let others = res.ctrls.iter().filter(|c| c.1.ctype != "1.2.840.113556.1.4.319").map(|c| c.1.ctype.trim_start_matches("1.3.").to_string()).collect::<Vec<_>>().join("+");
     let left = { let m = table.lock().unwrap(); let g = gauges.lock().unwrap(); let mut ids: Vec<i32> = m.1.iter().copied().collect(); ids.sort();
         format!("{}/{}/{}", ids.iter().map(|x| x.to_string()).collect::<Vec<_>>().join(","), g.0.iter().map(|x| x.to_string()).collect::<Vec<_>>().join(","), g.1.iter().map(|x| x.to_string()).collect::<Vec<_>>().join(",")) };
     let refs_out = if chained { format!(" refs=[{}]", res.refs.iter().map(|u| u.trim_start_matches("ldap://t").to_string()).collect::<Vec<_>>().join(",")) } else { String::new() };
